@@ -225,6 +225,45 @@ func checkC06(c *Case, trace bool) *CaseResult {
 	if msg != "" {
 		res.Viol = append(res.Viol, Violation{Props: []string{"C06"}, Rule: "C06.trace-of-rejected-call", Op: at,
 			Msg: "history differs from the same history without its rejected registrations: " + msg})
+		return res
+	}
+	// a rejected call must not block a later registration: each rejected, not deliberately invalid
+	// registration (up to 3) is replayed on the history prefix without the earlier rejected calls;
+	// its verdict class must not depend on them
+	checked := 0
+	for j, op := range c.H.Ops {
+		if !drop[j] || op.Invalid != "" || op.Garbage > 0 || checked >= 3 {
+			continue
+		}
+		earlier := false
+		for k := range drop {
+			if k < j {
+				earlier = true
+			}
+		}
+		if !earlier {
+			continue
+		}
+		checked++
+		pre := c.H.Clone()
+		pre.Ops = nil
+		for k, o := range c.H.Ops[:j] {
+			if !drop[k] {
+				pre.Ops = append(pre.Ops, o)
+			}
+		}
+		for k := range pre.Ops {
+			pre.Ops[k].VisErrOf = 0
+		}
+		pre.Ops = append(pre.Ops, op)
+		pw := runPlain(pre, false)
+		got := pw.ops[len(pre.Ops)-1].Verdict
+		res.Stats["diff.rejections-revalidated"]++
+		if got != a.ops[j].Verdict {
+			res.Viol = append(res.Viol, Violation{Props: []string{"C06"}, Rule: "C06.rejected-call-changes-later-verdict", Op: j,
+				Msg: fmt.Sprintf("op%d (%s) is %s in the history but %s when the earlier rejected calls are left out", j, c.H.Describe()[j+1], a.ops[j].Verdict, got)})
+			return res
+		}
 	}
 	return res
 }
